@@ -8,6 +8,7 @@ require (
 	github.com/aukilabs/hagall-common v0.2.2
 	github.com/ethereum/go-ethereum v1.14.13
 	github.com/prometheus/client_golang v1.20.5
+	golang.org/x/net v0.38.0
 	google.golang.org/protobuf v1.36.2
 )
 
@@ -26,7 +27,6 @@ require (
 	go.opentelemetry.io/otel v1.33.0 // indirect
 	go.opentelemetry.io/otel/trace v1.33.0 // indirect
 	golang.org/x/crypto v0.36.0 // indirect
-	golang.org/x/net v0.38.0 // indirect
 	golang.org/x/sys v0.31.0 // indirect
 )
 
